@@ -22,8 +22,8 @@ import time
 from . import common as C
 
 KNOWN = os.path.join(C.VERIF, "known_findings.json")
-REPLAYS = os.path.join(C.VERIF, "replays")
-EVIDENCE = os.path.join(C.VERIF, "evidence")
+REPLAYS = os.environ.get("FCV_REPLAYS", os.path.join(C.VERIF, "replays"))
+EVIDENCE = os.environ.get("FCV_EVIDENCE", os.path.join(C.VERIF, "evidence"))
 MAX_REPORTED = 40
 
 
